@@ -121,6 +121,7 @@ type node struct {
 	unready            int
 	staleHash          int
 	failReload         int       // cycles during which "POST /-/reload" of this pod's Prometheus fails
+	promDown           int       // cycles during which this pod's Prometheus answers nothing (reload and head-series query fail)
 	createdAt          time.Time // harness clock before the pod was started
 	heldAt             time.Time // latest harness clock reading before a status read that showed targets on this pod
 }
@@ -144,7 +145,12 @@ func (n *node) start() error {
 	n.pxSrv = httptest.NewUnstartedServer(http.HandlerFunc(func(w http.ResponseWriter, r *http.Request) { n.in.Proxy.ServeHTTP(w, r) }))
 	n.pxSrv.Config.ErrorLog = nil
 	n.pxSrv.Start()
-	in, err := sc.New(sc.Options{StoreDir: n.dir, ProxyURL: n.pxSrv.URL, HeadSeries: func() (int64, error) { return n.head(), nil },
+	in, err := sc.New(sc.Options{StoreDir: n.dir, ProxyURL: n.pxSrv.URL, HeadSeries: func() (int64, error) {
+		if n.promDown > 0 {
+			return 0, errors.New("injected: prometheus is not answering")
+		}
+		return n.head(), nil
+	},
 		OnPromReload: n.promReload})
 	n.in = in
 	if err != nil {
@@ -172,7 +178,7 @@ func (n *node) restart() error {
 
 // promReload: what "POST /-/reload" makes Prometheus do: read the generated file.
 func (n *node) promReload() error {
-	if n.failReload > 0 {
+	if n.failReload > 0 || n.promDown > 0 {
 		return errors.New("injected: prometheus reload failed")
 	}
 	b, err := os.ReadFile(filepath.Join(n.dir, "prometheus_injected.yaml"))
@@ -614,6 +620,9 @@ func (w *World) Cycle() CycleObs {
 		if nd.failReload > 0 {
 			nd.failReload--
 		}
+		if nd.promDown > 0 {
+			nd.promDown--
+		}
 		if nd.readyIn > 0 {
 			nd.readyIn--
 		}
@@ -758,6 +767,8 @@ func (w *World) Fault(kind string, shardIdx, cycles int) string {
 		n.staleHash = cycles
 	case "failReload":
 		n.failReload = cycles
+	case "promDown":
+		n.promDown = cycles
 	case "noJobClient":
 		// this pod cannot build the HTTP client of the job (e.g. its CA file is unreadable there):
 		// scrape.Manager.ApplyConfig skips such a job, the configuration hash stays the same
@@ -800,6 +811,22 @@ func (w *World) Gen(i int) int {
 		return -1
 	}
 	return w.nodes[i].gen
+}
+
+// PromHas tells whether the simulated Prometheus of the shard at position i was given target id
+// (it is in the generated file the Prometheus last loaded).
+func (w *World) PromHas(i, id int) bool {
+	if i >= len(w.nodes) {
+		return false
+	}
+	for _, t := range w.nodes[i].promTs {
+		var h uint64
+		fmt.Sscan(t.URL().Query().Get("_hash"), &h)
+		if IDOf(h) == id {
+			return true
+		}
+	}
+	return false
 }
 
 // TakeRemovals returns and clears the removals recorded since the last call.
